@@ -26,10 +26,10 @@ BagEq(s, t) ==
 V1(ps, q) == [ps |-> ps, q |-> q]
 
 WrongOps == {"push_wrong", "insert_wrong", "swap_wrong", "splice_wrong", "downcast_q"}
-CloneOps == {"clone_vec", "ce_probe"}
+CloneOps == {"clone_vec", "ce_probe", "fn_ptrs"}
 LazyOps  == {"lazy"}
 CapOps   == {"reserve", "reserve_exact", "shrink_to_fit", "shrink_to", "recreate"}
-ElemOps  == {"push", "insert", "pop_begin", "remove_begin", "swap_remove_begin", "consume", "hmutate", "tpop",
+ElemOps  == {"debug", "push", "insert", "pop_begin", "remove_begin", "swap_remove_begin", "consume", "hmutate", "tpop",
              "tremove", "tswap_remove", "clear", "get", "mutate", "ext_drop"}
 RangeOps == {"drain_begin", "splice_begin", "next", "item_consume", "range_drop", "range_forget"}
 IterOps  == {"iter_begin", "iter_next", "iter_clone", "iter_end"}
@@ -192,6 +192,7 @@ FreshFor(stb, ev) ==
   LET a == ev.act IN
   IF a.op = "clone_vec" THEN [i \in 1..Len(stb.v[a.v].el) |-> NewOf(ev.clones, stb.v[a.v].el[i][1])]
   ELSE IF a.op = "lazy" THEN [j \in 1..a.n |-> IF j <= Len(ev.clones) THEN ev.clones[j][2] ELSE 0]
+  ELSE IF a.op = "fn_ptrs" THEN <<IF Len(ev.clones) >= 1 THEN ev.clones[1][2] ELSE 0>>
   ELSE ev.born
 
 (* notes by which the driver reports that something the library REPORTED about itself is false *)
